@@ -3493,6 +3493,26 @@ impl KotoVm {
         let representation = format_options.and_then(|options| options.representation);
         let rendered = match value {
             KValue::Number(n) => match (precision, representation) {
+                // The debug and exponential representations are supported for all numbers,
+                // so floats are rendered as floats rather than being converted to integers.
+                (precision, Some(StringFormatRepresentation::Debug)) if n.is_f64() => {
+                    match precision {
+                        Some(precision) => format!("{:.*}", precision as usize, f64::from(n)),
+                        None => n.to_string(),
+                    }
+                }
+                (precision, Some(StringFormatRepresentation::ExpLower)) if n.is_f64() => {
+                    match precision {
+                        Some(precision) => format!("{:.*e}", precision as usize, f64::from(n)),
+                        None => format!("{:e}", f64::from(n)),
+                    }
+                }
+                (precision, Some(StringFormatRepresentation::ExpUpper)) if n.is_f64() => {
+                    match precision {
+                        Some(precision) => format!("{:.*E}", precision as usize, f64::from(n)),
+                        None => format!("{:E}", f64::from(n)),
+                    }
+                }
                 (_, Some(representation)) => {
                     let n = i64::from(n);
                     match representation {
